@@ -277,17 +277,20 @@ MVals(name) ==
     [] name = "Dn" -> <<1, 2, -1, -2, 1, 2, 2, -1, -2>>
 \* derivative weights: element k of parent q carries d = v * W(q, k)
 W(q, k) == IF q = 1 THEN k ELSE 3 - 2 * k
-MkParent(rows, cols, name, q) ==
+\* rot rotates the menu (another assignment of the same values to the cells)
+MkParentR(rows, cols, name, q, rot) ==
   LET n == IF cols < 0 THEN rows ELSE rows * cols
+      L == Len(MVals(name))
       divv == name \in {"N", "Dn"}          \* quotients must be exact: equal weights, zero derivative of a/b
-  IN Parent(rows, cols, SeqOf(n, LAMBDA k : IF divv THEN <<MVals(name)[k], 0>>
-                                             ELSE Dual(MVals(name)[k], W(q, k))))
+      val(k) == MVals(name)[((k - 1 + rot) % L) + 1]
+  IN Parent(rows, cols, SeqOf(n, LAMBDA k : IF divv THEN <<val(k), 0>> ELSE Dual(val(k), W(q, k))))
 
 IsDiv(op) == op \in {"VdivV", "MdivM", "VdivS", "MdivS"}
 ScalarOpd(op) == IF IsDiv(op) THEN <<2, 0>> ELSE <<-2, -6>>
 
 (* ---- groups ---------------------------------------------------------------- *)
-CGroup(name, op) == [fam |-> "cont", name |-> name, op |-> op]
+CGroup(name, op) == [fam |-> "cont", name |-> name, op |-> op, rot |-> 0]
+Rots == IF Rich = 1 THEN {0, 2, 4, 7} ELSE {0}
 VecEw  == {"VaddV", "VsubV", "VmulV", "VdivV"}
 MatEw  == {"MaddM", "MsubM", "MmulM", "MdivM"}
 VecEwS == {"VaddS", "VsubS", "VmulS", "VdivS"}
@@ -321,6 +324,7 @@ ForCont(g, Put(_)) ==
       isV == op \in VecEw \cup VecEwS
       isS == op \in VecEwS \cup MatEwS
       C(P, views, ri, ai, bi) == Put(CCase(op, g.name, P, views, ri, ai, bi, IF isS THEN S ELSE Z))
+      MkParent(rows, cols, name, q) == MkParentR(rows, cols, name, q, g.rot)
   IN
   CASE g.name = "id" /\ (op \in VecEw \cup MatEw) ->
          \* r = a, r = b, r = a = b on the very same object (two parents: the other operand is separate)
@@ -465,7 +469,7 @@ Init == ph = "start" /\ grp = NoGroup /\ c = NoCase
 PickGroup ==
   /\ ph = "start"
   /\ \/ Part = "scalar" /\ grp' \in {g \in ScalarGroups : SGroupOK(g)} \cup {g \in ReduceGroups : g.ri <= RLen(g.op)}
-     \/ Part = "cont"   /\ grp' \in ContGroups
+     \/ Part = "cont"   /\ grp' \in {[g EXCEPT !.rot = k] : g \in ContGroups, k \in Rots}
   /\ ph' = "group" /\ UNCHANGED c
 
 Put(k) == /\ c' = k
